@@ -13,20 +13,8 @@ CALLS = ["getitem"]
 CORPUS = os.path.join(common.ROOT, "harness", "corpus", "c20.jsonl")
 
 # Findings of this check that are not yet decided (fix in /repo or record in known_findings.json).  Treated as known.
-PROVISIONAL_KNOWN = {
-    "getitem-list-zip": {
-        "what": "A[[i...], [j...]] zips the two index lists: lists of different lengths are silently truncated to the shorter one "
-                "(NumPy broadcasts a length-1 list and raises IndexError 'shape mismatch' otherwise), and two empty lists raise "
-                "ValueError from stack([]) where NumPy returns an empty vector",
-        "call_site": "cola/ops/operator_base.py LinearOperator.__getitem__, case (list(li), list(lj))",
-        "witness": {"call": "getitem", "op": ["dense", "f64", 3, 4, [[0, 1, 2, 3], [4, 5, 6, 7], [8, 9, 10, 11]]],
-                    "ids": [{"l": [0, 1, 2]}, {"l": [1]}],
-                    "cola": "[1.]", "numpy": "[1., 5., 9.]",
-                    "more": ["A[[0,1,2],[1,2]] -> [1., 6.] (NumPy: IndexError shape mismatch)",
-                             "A[[],[]] -> ValueError need at least one array to stack (NumPy: empty vector)"]},
-        "lean_clause": "Op.EqualLenLists (Lemmas/OpIndex.lean), witness theorem C20.C20_listZip_clause_needed",
-    },
-}
+# (`getitem-list-zip` was decided: repaired in /repo dd36003; Lean regression `C20_listPair_regression`.)
+PROVISIONAL_KNOWN = {}
 
 
 def primitive_stream(ctx):
